@@ -9,6 +9,7 @@
    witness and a [_partial] theorem with the explicit exclusion. *)
 From PahoV Require Import Base.Prelude Codec.Mid Conc.Sched Conc.SchedLemmas Conc.MidGen Conc.Handoff Conc.Wake
   Conc.ConnFirst Conc.LockOrder.
+From PahoV Require Conc.LockGraph Conc.LockGraphSound Gen.GenLockGraph Conc.LockOrderGraph.
 
 (* ------------------------------------------------------------------ 1. packet ids (also C14's thread clause) *)
 Theorem C07_mutual_exclusion : forall m0 l0 pipe0 nmsgs s i j p q, 0 <= m0 <= 65535 ->
@@ -141,6 +142,22 @@ Theorem C07_client_no_lock_deadlock : forall n0 k0 n12 k12 hs s,
   exists t', lstep_t client_reent t' C <> None.
 Proof. exact client_no_lock_deadlock. Qed.
 Print Assumptions C07_client_no_lock_deadlock.
+
+(* the same lock order holds in the lock / call graph GENERATED from client.py on every run (callbacks installed
+   and passive): in every reachable configuration of the one-thread semantics of Conc/LockGraph.v whose next
+   action is a blocking `with self._l:`, every lock x already held is l itself (l reentrant) or ranks below l *)
+Theorem C07_lock_order_of_source : forall h c m l b k x,
+  LockGraph.reachable LockOrderGraph.P07 (h, c, LockGraph.Do m (LockGraph.Acq l b) :: k) -> In x h ->
+  (x = l /\ LockGraph.plainb LockOrderGraph.P07 l = false) \/ (LockOrderGraph.gen_rank x < LockOrderGraph.gen_rank l)%nat.
+Proof. exact LockOrderGraph.gen_lock_order. Qed.
+Print Assumptions C07_lock_order_of_source.
+
+(* ... and its held-while-acquiring relation is exactly the relation of the skeletons used above *)
+Theorem C07_lock_order_of_source_is_model :
+  LockOrderGraph.subset_pairs LockOrderGraph.gen_pairs (dedup client_edges) &&
+  LockOrderGraph.subset_pairs (dedup client_edges) LockOrderGraph.gen_pairs = true.
+Proof. exact LockOrderGraph.gen_relation_is_model_relation. Qed.
+Print Assumptions C07_lock_order_of_source_is_model.
 
 (* ------------------------------------------------------------------ 5. publish() racing with reconnect() *)
 (* (a) CONNECT first - FULL STATEMENT, FALSE (finding F-C07a, same root as F-C10d) *)
